@@ -2,4 +2,4 @@ Require Extraction.
 From Coq Require Import ExtrOcamlBasic.
 From Cloak Require Import Model.Reorder Model.Mux.
 Extraction Blacklist List String Int.
-Extraction "../ocaml/gen/mux.ml" init step query_side query_conn sy_conns.
+Extraction "../ocaml/gen/mux.ml" init step query_side query_conn sy_conns sy_pend.
